@@ -79,9 +79,10 @@ class _Buffer:
         return word
 
     def read_bytes(self, bytes: int) -> List[int]:
-        byteaddr = self.bitaddr >> 3
-        self.bitaddr += 8 * bytes
-        return self.buffer[byteaddr : byteaddr + bytes]
+        if self.bitaddr + 8 * bytes > 8 * len(self.buffer):
+            raise ValueError("buffer overrrun")
+
+        return [self.read_word(8) for _ in range(bytes)]
 
     def get_buffer(self) -> bytearray:
         return bytearray(self.buffer)
@@ -98,13 +99,13 @@ def _encode_builtin_signed(buffer: _Buffer, type: SignedType, data: Any) -> None
 
 
 def _encode_builtin_float(buffer: _Buffer, type: FloatType, data: Any) -> None:
-    v = struct.pack("f", data)
-    buffer.push_bytes(list(v))
+    v = struct.pack("<f", data)
+    buffer.push_word(int.from_bytes(v, "little"), 32)
 
 
 def _encode_builtin_double(buffer: _Buffer, type: DoubleType, data: Any) -> None:
-    v = struct.pack("d", data)
-    buffer.push_bytes(list(v))
+    v = struct.pack("<d", data)
+    buffer.push_word(int.from_bytes(v, "little"), 64)
 
 
 def _encode_str(buffer: _Buffer, fcp: FcpV2, type: StringType, data: Any) -> None:
@@ -196,11 +197,11 @@ def _decode_builtin_signed(buffer: _Buffer, type: SignedType) -> int:
 
 
 def _decode_builtin_float(buffer: _Buffer, type: FloatType) -> float:
-    return float(struct.unpack("f", bytearray(buffer.read_bytes(4)))[0])
+    return float(struct.unpack("<f", bytearray(buffer.read_bytes(4)))[0])
 
 
 def _decode_builtin_double(buffer: _Buffer, type: DoubleType) -> float:
-    return float(struct.unpack("d", bytearray(buffer.read_bytes(8)))[0])
+    return float(struct.unpack("<d", bytearray(buffer.read_bytes(8)))[0])
 
 
 def _decode_str(buffer: _Buffer, type: StringType) -> str:
